@@ -94,6 +94,13 @@ func runLock(o *opts) {
 		{"checkout-obstructed", []string{"checkout", "@d.yaml"}, 0, true, "obstruct"},
 		{"checkout-copy-obstructed", []string{"checkout", "--copy", "@d.yaml"}, 0, true, "obstruct"},
 		{"pull-obstructed", []string{"pull", "@d.yaml"}, 2, true, "obstruct"},
+		// global flags: profiling / tracing output is written around the command
+		{"status-profile", []string{"--profile", "status", "@s.yaml", "@d.yaml"}, 0, false, ""},
+		{"commit-trace", []string{"--trace", "commit", "@s.yaml", "@d.yaml"}, 0, false, ""},
+		{"status-profile-and-trace", []string{"--profile", "--trace", "status", "@s.yaml"}, 3, true, ""},
+		{"status-profile-unwritable", []string{"--profile", "status", "@s.yaml", "@d.yaml"}, 0, true, "pprof-full"},
+		{"checkout-profile-unwritable", []string{"--profile", "checkout", "@s.yaml", "@d.yaml"}, 0, true, "pprof-full"},
+		{"config-get-profile-unwritable", []string{"--profile", "config", "get", "cache"}, 1, true, "pprof-full"},
 	}
 	var cases []string
 	id := 0
@@ -132,7 +139,15 @@ func runLock(o *opts) {
 					os.Remove(filepath.Join(p.Root, "data.txt"))
 					must(os.WriteFile(filepath.Join(p.Root, "data.txt"), []byte("edited by the user\n"), 0o644))
 				}
+				if c.stdin == "pprof-full" {
+					// the profile can be created but not written: the error comes after the command's work
+					os.Remove(filepath.Join(p.Root, cwd, "dud.pprof"))
+					must(os.Symlink("/dev/full", filepath.Join(p.Root, cwd, "dud.pprof")))
+				}
 				res := p.dud(cwd, args...)
+				if c.stdin == "pprof-full" {
+					os.Remove(filepath.Join(p.Root, cwd, "dud.pprof"))
+				}
 				if c.stdin == "obstruct" {
 					os.Remove(filepath.Join(p.Root, "data.txt"))
 					p.dud("", "checkout", "d.yaml")
